@@ -10,7 +10,10 @@ COQ_FILES = ["gen/Gen.v", "proofs/SnaProofs.v", "model/RPQ.v", "proofs/RPQProofs
              "model/RQ.v", "proofs/RQProofs.v", "props/RQSafety.v",
              "model/E2E.v", "proofs/E2EProofs.v", "props/C01.v",
              "model/StreamW.v", "proofs/StreamWProofs.v",
-             "model/PQ.v", "proofs/PQProofs.v", "proofs/PQFairProofs.v", "props/C17.v"]
+             "model/PQ.v", "proofs/PQProofs.v", "proofs/PQFairProofs.v", "props/C17.v",
+             "model/Sender.v", "proofs/SenderProofs.v", "proofs/RPQWordProofs.v", "model/Live.v", "proofs/LiveSender.v",
+             "proofs/LiveProofs.v", "proofs/LiveReach.v", "props/C01Ack.v"]
+EXTRA_PROPS_FILES = ["props/C01Ack.v"]
 TRUSTED_BASE = [
     "Coq 8.16.1 kernel; vm_compute only in Examples/refutation witnesses; no native_compute",
     "hand-written models: coq/model/E2E.v (handleData -> acceptPayloadData -> pushPayloadDataToStream -> pop loop of "
